@@ -8,23 +8,42 @@ Schedules: (1) instrumented controlled scheduler (kernel library built with
 interleavings at memory-access granularity; (2) real libgomp stress at 1..64
 threads; (3) ThreadSanitizer race inventory through a pthread GOMP shim
 (evidence, not a verdict).
+
+Statement vs numbering: the statement fixes the partition and the number of labels, not how the maxima are numbered.
+The libgomp / sparse routes therefore compare the single-thread, zero-buffer result with the reference as a partition
+(plus count and "labels are exactly n distinct positive values"), and every other thread count / buffer content / repeat
+bit-for-bit with that result ("identical for any number of threads and any previous content").  The controlled
+scheduler child (vlib/sched_c13.py) still compares with the raster-numbered reference bit-for-bit, which the pinned
+implementation satisfies.
+
+Case dimensions (shape, value map, thread counts, sparse density, interior/border pattern, coordinate offset) are drawn
+from the case rng; the image class is stratified by the index so that every class appears.
 """
 import os, subprocess, sys, json
 import numpy as np
 from ..common import rng, PY, VERIF, WORK
 from .. import build
 
-TECHNIQUE = ("runtime reference-model monitor (steepest-ascent reference, exact label equality) under three schedule sources: "
+TECHNIQUE = ("runtime reference-model monitor (steepest-ascent reference; partition + count equality for the reference run, bit "
+             "equality across thread counts, buffer contents and repeats) under three schedule sources: "
              "deterministic controlled scheduler driven by compiler-inserted memory-access callbacks, real libgomp stress at "
              "1..64 threads, ThreadSanitizer race inventory via a pthread GOMP shim; buffer-poison differential; sparse variant "
-             "vs dense partition")
-LEVEL_TEXT = ("Exploration: tie-free images (3x3..160x160, 3xN, Nx3, smooth single/multi-peak fields with ascent paths crossing "
-              "thread-block boundaries, noisy fields with many maxima) are labelled with 1..64 threads; every run must equal the "
-              "steepest-ascent reference exactly, with output/work buffers pre-filled with two poisons. The controlled scheduler replays "
-              "exactly from (image, threads, seed); libgomp runs are repeated. Distinct schedules (hash of the switch sequence) and "
-              "racing access pairs are reported in the evidence.")
+             "vs reference and vs dense partition; SparseScan.lmlabel (workspaces reused across frames, smoothed and raw signal) "
+             "with an exact reference for sparse_smooth")
+LEVEL_TEXT = ("Exploration: images without equal values in any 3x3 window (3x3..160x160, 512x384 / 3x5000 in the thorough tier, 3xN, "
+              "Nx3, smooth single/multi-peak fields with ascent paths crossing thread-block boundaries, noisy fields with many maxima; "
+              "values as ranks, shifted to negative/zero, scaled to non-integers in [-1e4,1e4], scaled by 2^100 of both signs, and with "
+              "values repeated outside every 3x3 window) are labelled with thread counts 1,2,3,4,8,16,64 plus two drawn from 1..64 per "
+              "image; output/work buffers pre-filled with poisons incl. the 'is a maximum' code 5. Sparse patterns with gaps, on and off "
+              "the border, coordinates up to 65535, every class also compared with the dense variant; multi-frame sparse scans through "
+              "SparseScan.lmlabel. The controlled scheduler replays exactly from (image, threads, seed); libgomp runs are repeated. "
+              "Distinct schedules (hash of the switch sequence) and racing access pairs are reported in the evidence.")
 LEVEL_NOTE = ("The controlled scheduler explores sequentially-consistent interleavings only; libgomp stress shows what this x86 host "
-              "produces; TSan output is an inventory and not a verdict. Images are tie-free by construction (verified before use).")
+              "produces; TSan output is an inventory and not a verdict. Images are tie-free by construction (verified before use). "
+              "Sparse images whose values are all below -1e10 (the pinned kernel's finite MV_LOW sentinel, repaired in /repo) "
+              "are part of the value maps. With "
+              "smooth=True the labelling oracle takes the smoothed signal produced by the code (itself checked against an exact "
+              "model) as the image and skips frames where smoothing created equal neighbours.")
 
 RULE = ("a case = (image class, shape, thread count, schedule source, seed); non-trivial = image has >= 2 local maxima or an ascent "
         "path longer than a thread block; distinct = (class, shape, hash of image, threads, source, seed)")
@@ -71,6 +90,81 @@ def gen_image(r, shape, cls):
 
 CLASSES = ["single-peak", "multi-peak", "noise", "ridge", "spiral-ramp", "multi-peak", "border-peak", "noise"]
 OFF = [(-1, -1), (0, -1), (1, -1), (-1, 0), (0, 0), (1, 0), (-1, 1), (0, 1), (1, 1)]
+
+# value maps applied to the tie-free rank image (ranks 1..N): the statement is about any image without equal-valued
+# neighbours, not about positive integers.  "huge-" puts every value below -1e10 (sparse MV_LOW sentinel).
+VMAPS = ["rank", "centered", "negative", "scaled", "huge+", "huge-", "repeat"]
+SMALL_VMAPS = ("rank", "centered", "negative", "scaled", "repeat")        # |value| < 2^23: a lower background fits in float32
+
+
+def window_tie_free(img, present=None):
+    """no two (present) pixels that share a 3x3 window (Chebyshev distance <= 2) are equal: then 'the largest of the
+    eight neighbours' is unique for every pixel.  Returns a bool image of pixels that tie with an earlier pixel."""
+    ns, nf = img.shape
+    bad = np.zeros(img.shape, bool)
+    pres = np.ones(img.shape, bool) if present is None else present
+    for di in range(0, 3):
+        for dj in range(-2, 3):
+            if di == 0 and dj <= 0:
+                continue
+            a = (slice(0, ns - di), slice(max(0, -dj), nf - max(0, dj)))
+            b = (slice(di, ns), slice(max(0, dj), nf - max(0, -dj)))
+            if img[a].size:
+                bad[b] |= (img[a] == img[b]) & pres[a] & pres[b]
+    return bad
+
+
+def apply_vmap(r, rank, vmap):
+    """rank: float32 image of distinct ranks 1..N.  Returns a float32 image without equal values in any 3x3 window"""
+    N = rank.size
+    rk = rank.astype(np.float64)
+    if vmap == "rank":
+        img = rk
+    elif vmap == "centered":
+        img = rk - (N + 1) // 2                       # negative, zero and positive
+    elif vmap == "negative":
+        img = rk - N - 1                              # all negative, maximum -1
+    elif vmap == "scaled":
+        img = (rk - N / 2.0) * (2.0e4 / N)            # non-integers in [-1e4, 1e4]
+    elif vmap == "huge+":
+        img = rk * 2.0 ** 100
+    elif vmap == "huge-":
+        img = (rk - N - 1) * 2.0 ** 100               # every value <= -2^100
+    elif vmap == "repeat":
+        # globally repeated values, never inside one 3x3 window: ranks modulo M, pixels that tie with an earlier pixel
+        # of a window get a fresh value
+        M = max(7, N // 3)
+        img = np.mod(rk, M)
+        bad = window_tie_free(img)
+        img[bad] = M + 1 + np.arange(int(bad.sum()))
+    else:
+        raise ValueError(vmap)
+    img = img.astype(np.float32)
+    if vmap == "repeat":
+        assert not window_tie_free(img).any()
+    else:
+        assert len(np.unique(img)) == img.size
+    return img
+
+
+def gen_image2(r, shape, cls, vmap):
+    return apply_vmap(r, gen_image(r, shape, cls), vmap)
+
+
+def check_against_reference(lab, n, want, npk):
+    """statement-level comparison of one labelling with the steepest-ascent reference: same background, same partition,
+    n = number of maxima = number of distinct labels, all positive.  Returns None or a description."""
+    lab = np.asarray(lab)
+    if n != npk:
+        return "returned %d labels, reference has %d local maxima" % (n, npk)
+    if ((lab == 0) != (want == 0)).any():
+        return "%d pixels differ in being background" % int(((lab == 0) != (want == 0)).sum())
+    u = np.unique(lab[lab != 0])
+    if len(u) != npk or (len(u) and u[0] < 1):
+        return "%d distinct labels (smallest %s) for %d maxima" % (len(u), u[0] if len(u) else None, npk)
+    if not np.array_equal(canon(lab), canon(want)):
+        return "partition differs from steepest ascent"
+    return None
 
 
 def ref_dense(img):
@@ -139,98 +233,279 @@ def canon(a):
     return c(a)
 
 
-def stress_cases(run, seed, mods, ncase, reps):
+POISONS = ((0, 0), (-99, 7), (123456, 255), (77, 5))      # (labels, work); 5 is the "is a maximum" code of the work array
+
+
+def stress_cases(run, seed, mods, ncase, reps, only=None):
     cImageD11, sparseframe = mods
     shapes = [(3, 3), (3, 40), (40, 3), (5, 5), (16, 16), (32, 48), (64, 64), (97, 61), (128, 128), (160, 160)]
+    big = [(256, 256), (512, 384), (3, 5000), (5000, 3)]
     for idx in range(ncase):
+        if only is not None and idx != only:
+            continue
         r = rng(seed, "C13", "stress", idx)
-        shape = shapes[idx % len(shapes)]
-        cls = CLASSES[(idx // 2) % len(CLASSES)]
-        img = gen_image(r, shape, cls)
+        cls = CLASSES[idx % len(CLASSES)]
+        shape = shapes[int(r.integers(len(shapes)))]
+        if run.tier == "thorough" and r.random() < 0.05:
+            shape = big[int(r.integers(len(big)))]
+        vmap = VMAPS[int(r.integers(len(VMAPS)))]
+        img = gen_image2(r, shape, cls, vmap)
         want, npk, plen = ref_dense(img)
-        desc = dict(index=idx, source="libgomp", shape=shape, cls=cls)
+        extra = tuple(int(t) for t in r.integers(1, 65, 2))
+        desc = dict(index=idx, source="libgomp", shape=shape, cls=cls, vmap=vmap, extra_threads=extra, tier=run.tier)
+        run.count("dense_images_vmap_" + vmap)
         first = True
-        for nt in THREADS:
+        base = None
+        for nt in THREADS + extra:
             cImageD11.cimaged11_omp_set_num_threads(nt)
+            if img.size % nt:
+                run.count("libgomp_runs_threads_not_dividing_size")
             block = max(1, img.size // nt)
+            stop = False
             for rep in range(reps if nt > 1 else 1):
-                for poison in ((0, 0), (-99, 7), (123456, 255)):
+                for poison in (POISONS if rep == 0 else (POISONS[0], POISONS[1 + rep % 3])):
                     lab = np.full(shape, poison[0], np.int32)
                     wrk = np.full(shape, poison[1], np.uint8)
                     n = cImageD11.localmaxlabel(img, lab, wrk)
                     run.count("libgomp_runs")
-                    if n != npk or not np.array_equal(lab, want):
-                        bad = int((lab != want).sum())
+                    if base is None:
+                        # reference run: 1 thread, zeroed buffers, compared at statement level
+                        why = check_against_reference(lab, n, want, npk)
+                        if why:
+                            run.violation("localmaxlabel:1-thread", "single thread, zeroed buffers: " + why, dict(desc, threads=nt))
+                            stop = True
+                            break
+                        base = (n, lab.copy())
+                    elif n != base[0] or not np.array_equal(lab, base[1]):
                         run.violation("localmaxlabel:libgomp:threads>1" if nt > 1 else "localmaxlabel:1-thread",
-                                      "labels differ from the steepest-ascent reference in %d pixels (returned %d maxima, "
+                                      "labels differ from the single-thread zero-buffer result in %d pixels (returned %d maxima, "
                                       "reference %d) with %d threads, poison %r, repetition %d"
-                                      % (bad, n, npk, nt, poison, rep), dict(desc, threads=nt, poison=poison, rep=rep))
+                                      % (int((lab != base[1]).sum()), n, npk, nt, poison, rep),
+                                      dict(desc, threads=nt, poison=poison, rep=rep))
+                        stop = True
                         break
-                    if poison[0] != 0 and rep > 0:
-                        break
+                if stop:
+                    break
             run.case((cls, shape, hash(img.tobytes()), nt, "libgomp"),
                      nontrivial=(npk >= 2 or plen > block), sample=dict(desc, threads=nt, maxima=npk) if first else None)
             first = False
+            if base is None:
+                break
         cImageD11.cimaged11_omp_set_num_threads(4)
 
 
-def sparse_cases(run, seed, mods, ncase):
+def smooth_model(row, col, v, shape):
+    """float64 model of sparse_smooth: (4 v + 2 (edge neighbours) + 1 (corner neighbours)) / 16 over the present pixels"""
+    ns, nf = shape
+    d = np.zeros((ns + 2, nf + 2))
+    d[row + 1, col + 1] = v
+    a = np.abs(d)
+    out, mag = 0.0, 0.0
+    for di in (-1, 0, 1):
+        for dj in (-1, 0, 1):
+            w = (4.0 if (di, dj) == (0, 0) else (3 - di * di - dj * dj)) / 16.0
+            out = out + w * d[row + 1 + di, col + 1 + dj]
+            mag = mag + w * a[row + 1 + di, col + 1 + dj]
+    return out, mag
+
+
+def check_smooth(got, row, col, v, shape):
+    """None or a description.  Tolerance (derived): the kernel works in float32: s = v/16 (exact), then up to 9 terms
+    v_p * c with c in {1,2,3}/16 (at most one rounding each, only for c = 3/16) added one by one (one rounding per
+    addition, each partial sum bounded by A = sum c |v_p|): |error| <= (9 + 9) * 2^-24 * A, 20 * 2^-24 * A used.  When all
+    v are integers with 16 A < 2^24 every product and partial sum is a multiple of 1/16 below 2^20, hence exactly
+    representable: the tolerance is then zero."""
+    want, mag = smooth_model(row, col, v.astype(np.float64), shape)
+    exact = bool((v == np.round(v)).all() and (16 * mag).max() < 2 ** 24)
+    tol = 0.0 if exact else 20 * 2.0 ** -24 * mag
+    err = np.abs(got.astype(np.float64) - want)
+    if (err > tol).any():
+        k = int(np.argmax(err - tol))
+        return "smoothed value of pixel (%d,%d) is %r, model %r (tolerance %g)" % (row[k], col[k], float(got[k]), float(want[k]),
+                                                                                 float(np.max(tol)) if exact else float(tol[k]))
+    return None
+
+
+def sparse_one(run, seed, idx, mods):
     cImageD11, sparseframe = mods
+    r = rng(seed, "C13", "sparse", idx)
+    cls = CLASSES[idx % len(CLASSES)]
+    shape = [(6, 6), (12, 20), (40, 40), (64, 31), (100, 100), (3, 200), (150, 90)][int(r.integers(7))]
+    vmap = VMAPS[int(r.integers(len(VMAPS)))]
+    img = gen_image2(r, shape, cls, vmap)
+    # sparse pattern with gaps and isolated pixels
+    p = float(r.choice([0.15, 0.4, 0.7, 0.95]))
+    mask = r.random(shape) < p
+    # two kinds of pattern: off the border (these can also be compared with the dense variant, which treats the border
+    # as background) and patterns that use the first/last row and column
+    interior = bool(r.random() < 0.5)
+    if interior:
+        mask[0, :] = mask[-1, :] = False
+        mask[:, 0] = mask[:, -1] = False
+    else:
+        mask[:, 0] |= r.random(shape[0]) < 0.6
+        mask[0, :] |= r.random(shape[1]) < 0.6
+        mask[-1, -1] = True
+    if mask.sum() == 0:
+        mask[shape[0] // 2, shape[1] // 2] = True
+    fr = sparseframe.from_data_mask(mask.astype(np.int8), img, {})
+    v = fr.pixels["intensity"].astype(np.float32)
+    row, col = fr.row.astype(int), fr.col.astype(int)
+    want, npk = ref_sparse(row, col, v, shape)
+    # coordinate offset: the kernel sees only (row, col) lists, the reference is translation invariant
+    off = (0, 0)
+    if r.random() < 0.4:
+        # per axis: largest coordinate exactly 65535 / pattern straddling 32767|32768 (sign bit of a 16-bit index) / anywhere
+        off = tuple([int(65536 - sh), int(32768 - r.integers(1, sh)), int(r.integers(1, 65536 - sh))][int(r.integers(3))]
+                    for sh in shape)
+    krow, kcol = (row + off[0]).astype(np.uint16), (col + off[1]).astype(np.uint16)
+    if max(int(krow.max()), int(kcol.max())) >= 32768:
+        run.count("sparse_patterns_coordinate_ge_32768")
+    if any(int(a.min()) < 32768 <= int(a.max()) for a in (krow, kcol)):
+        run.count("sparse_patterns_straddling_32768")
+    desc = dict(index=idx, source="sparse", shape=shape, cls=cls, vmap=vmap, nnz=int(fr.nnz), interior=interior, offset=off)
+    run.case((cls, shape, hash(img.tobytes()), "sparse", p), nontrivial=npk >= 2, sample=dict(desc, maxima=npk))
+    run.count("sparse_images_vmap_" + vmap)
+    res = []
+    for poison in (0, -5):
+        lab = np.full(fr.nnz, poison, np.int32)
+        MV = np.full(fr.nnz, float(poison) * 1e9, np.float32)
+        iMV = np.full(fr.nnz, poison, np.int32)
+        n = cImageD11.sparse_localmaxlabel(v, krow, kcol, MV, iMV, lab)
+        run.count("sparse_runs")
+        res.append((n, lab.copy()))
+        if poison == 0:
+            why = check_against_reference(lab, n, want, npk) or ("a pixel is unlabelled" if (lab <= 0).any() else None)
+            if why:
+                run.violation("sparse_localmaxlabel:labels", "sparse labels are not steepest ascent among present pixels: " + why, desc)
+                return
+    if res[0][0] != res[1][0] or not np.array_equal(res[0][1], res[1][1]):
+        run.violation("sparse_localmaxlabel:buffer-dependent", "result depends on previous buffer content", desc)
+    # python wrappers (frame coordinates must stay below 65535: offset at most 65534 - size)
+    wfr = fr
+    if off != (0, 0):
+        o2 = tuple(min(o, 65534 - sh) for o, sh in zip(off, shape))
+        wfr = sparseframe.sparse_frame((row + o2[0]).astype(np.uint16), (col + o2[1]).astype(np.uint16), (65534, 65534),
+                                       pixels={"intensity": fr.pixels["intensity"]})
+    nl = sparseframe.sparse_localmax(wfr)
+    if nl != res[0][0] or not np.array_equal(wfr.pixels["localmax"], res[0][1]) or wfr.meta["localmax"]["nlabel"] != nl:
+        run.violation("sparseframe.sparse_localmax", "wrapper labels differ from the kernel result", desc)
+    sm = sparseframe.sparse_smooth(wfr)
+    run.count("sparse_smooth_checks")
+    why = check_smooth(sm, row, col, v, shape)
+    if why:
+        run.violation("sparse_smooth:values", why, desc)
+    if not interior:
+        run.count("sparse_border_patterns")
+        return
+    if vmap not in SMALL_VMAPS:
+        return
+    # same partition as the dense variant on the same pixels: embed with a background below every present pixel
+    # (distinct integers below the smallest present value; |values| < 2^23 so they are exact in float32)
+    bg = np.floor(float(v.min())) - 1.0 - tiefree(r, r.random(shape))
+    dimg = np.where(mask, img, bg).astype(np.float32)
+    assert dimg[~mask].max() < v.min() and not window_tie_free(dimg).any()
+    lab = np.zeros(shape, np.int32)
+    wrk = np.zeros(shape, np.uint8)
+    cImageD11.localmaxlabel(dimg, lab, wrk)
+    dl = lab[fr.row, fr.col]
+    run.count("sparse_vs_dense")
+    run.count("sparse_vs_dense:" + cls)
+    if not np.array_equal(canon(dl), canon(want)):
+        run.violation("sparse-vs-dense:partition", "sparse and dense variants give different partitions of the same pixels", desc)
+
+
+def sparse_cases(run, seed, mods, ncase, only=None):
     for idx in range(ncase):
-        r = rng(seed, "C13", "sparse", idx)
-        shape = [(6, 6), (12, 20), (40, 40), (64, 31), (100, 100)][idx % 5]
-        cls = CLASSES[idx % len(CLASSES)]
-        img = gen_image(r, shape, cls)
-        # sparse pattern with gaps and isolated pixels, none on the border
-        p = float(r.choice([0.15, 0.4, 0.7, 0.95]))
-        mask = r.random(shape) < p
-        # two classes: patterns that stay off the border (these can also be compared with the dense variant, which
-        # treats the border as background) and patterns that use the first/last row and column
-        interior = bool(idx % 2)
-        if interior:
-            mask[0, :] = mask[-1, :] = False
-            mask[:, 0] = mask[:, -1] = False
-        else:
-            mask[:, 0] |= r.random(shape[0]) < 0.6
-            mask[0, :] |= r.random(shape[1]) < 0.6
-            mask[-1, -1] = True
-        if mask.sum() == 0:
-            mask[shape[0] // 2, shape[1] // 2] = True
-        fr = sparseframe.from_data_mask(mask.astype(np.int8), img, {})
-        v = fr.pixels["intensity"].astype(np.float32)
-        want, npk = ref_sparse(fr.row.astype(int), fr.col.astype(int), v, shape)
-        desc = dict(index=idx, source="sparse", shape=shape, cls=cls, nnz=int(fr.nnz))
-        run.case((cls, shape, hash(img.tobytes()), "sparse", p), nontrivial=npk >= 2, sample=dict(desc, maxima=npk))
-        res = []
-        for poison in (0, -5):
-            lab = np.full(fr.nnz, poison, np.int32)
-            MV = np.full(fr.nnz, float(poison) * 1e9, np.float32)
-            iMV = np.full(fr.nnz, poison, np.int32)
-            n = cImageD11.sparse_localmaxlabel(v, fr.row, fr.col, MV, iMV, lab)
-            run.count("sparse_runs")
-            res.append(lab.copy())
-            if n != npk or not np.array_equal(lab, want):
-                run.violation("sparse_localmaxlabel:labels", "sparse labels differ from steepest ascent among present pixels "
-                              "(%d maxima returned, reference %d, %d pixels differ)" % (n, npk, int((lab != want).sum())), desc)
-                break
-        if len(res) == 2 and not np.array_equal(res[0], res[1]):
-            run.violation("sparse_localmaxlabel:buffer-dependent", "result depends on previous buffer content", desc)
-        # python wrapper
-        nl = sparseframe.sparse_localmax(fr)
-        if nl != npk or not np.array_equal(fr.pixels["localmax"], want):
-            run.violation("sparseframe.sparse_localmax", "wrapper labels differ from reference", desc)
-        if not interior:
-            run.count("sparse_border_patterns")
-            continue
-        # same partition as the dense variant on the same pixels: embed with a background below every present pixel
-        dimg = np.where(mask, img + np.float32(img.size + 1), img).astype(np.float32)
-        lab = np.zeros(shape, np.int32)
-        wrk = np.zeros(shape, np.uint8)
-        cImageD11.localmaxlabel(dimg, lab, wrk)
-        dl = lab[fr.row, fr.col]
-        run.count("sparse_vs_dense")
-        if not np.array_equal(canon(dl), canon(want)):
-            run.violation("sparse-vs-dense:partition", "sparse and dense variants give different partitions of the same pixels", desc)
+        if only is None or idx == only:
+            sparse_one(run, seed, idx, mods)
+
+
+def scan_case(run, seed, idx, mods):
+    """SparseScan.lmlabel over a multi-frame sparse file: one pair of workspaces (sized for the largest frame) is reused
+    for every frame, so each frame sees the previous frame's content; smooth=True goes through sparse_smooth"""
+    import tempfile, shutil
+    from .. import imgs
+    cImageD11, sparseframe = mods
+    r = rng(seed, "C13", "scan", idx)
+    shape = [(8, 9), (24, 30), (60, 45), (3, 120)][int(r.integers(4))]
+    nfr = int(r.integers(2, 8))
+    scaled = bool(r.random() < 0.25)          # non-integer intensities: smoothing is compared within the derived tolerance
+    frames = []
+    for k in range(nfr):
+        cls = CLASSES[int(r.integers(len(CLASSES)))]
+        img = gen_image2(r, shape, cls, "scaled" if scaled else str(r.choice(["rank", "centered", "repeat"])))
+        mask = r.random(shape) < float(r.choice([0.1, 0.3, 0.6, 0.9, 1.0]))
+        if k > 0 and r.random() < 0.2:
+            mask[:] = False                  # empty frame
+        elif not mask.any():
+            mask[0, 0] = True
+        frames.append((mask, img))
+    desc = dict(index=idx, source="scan", shape=shape, nframes=nfr, scaled=scaled)
+    run.case(("scan", shape, nfr, idx), nontrivial=True, sample=desc if idx < 2 else None)
+    os.makedirs(os.path.join(WORK, "tmp"), exist_ok=True)
+    d = tempfile.mkdtemp(prefix="c13s_", dir=os.path.join(WORK, "tmp"))
+    try:
+        fn = os.path.join(d, "scan.h5")
+        per = imgs.write_sparse_scan(fn, frames)
+        for smooth in (False, True):
+            for countall in (True, False):
+                key = dict(desc, smooth=smooth, countall=countall)
+                sc = sparseframe.SparseScan(fn, "1.1")
+                try:
+                    sc.lmlabel(countall=countall, smooth=smooth)
+                except Exception as e:
+                    run.violation("SparseScan.lmlabel:exception", "lmlabel raised %s: %s" % (type(e).__name__, e), key)
+                    return
+                run.count("lmlabel_runs")
+                tot, seen = 0, []
+                for k in range(nfr):
+                    s0, e0 = int(sc.ipt[k]), int(sc.ipt[k + 1])
+                    row, col, v = per[k][0].astype(int), per[k][1].astype(int), per[k][2]
+                    if e0 == s0:
+                        if sc.nlabels[k] != 0:
+                            run.violation("SparseScan.lmlabel:frame-labels", "empty frame %d has nlabels %d" % (k, sc.nlabels[k]), key)
+                            return
+                        continue
+                    sig = np.asarray(sc.signal[s0:e0])
+                    if smooth:
+                        run.count("lmlabel_smooth_frames")
+                        why = check_smooth(sig, row, col, v, shape)
+                        if why:
+                            run.violation("SparseScan.lmlabel:smooth", "frame %d: %s" % (k, why), dict(key, frame=k))
+                            return
+                    elif not np.array_equal(sig, v):
+                        run.violation("SparseScan.lmlabel:signal", "frame %d: smooth=False but the labelled signal is not the intensity" % k,
+                                      dict(key, frame=k))
+                        return
+                    # the labelled image is the signal; smoothing may create equal neighbours: outside the statement
+                    dense = np.zeros(shape, np.float32)
+                    pres = np.zeros(shape, bool)
+                    dense[row, col] = sig
+                    pres[row, col] = True
+                    if window_tie_free(dense, pres).any():
+                        run.count("lmlabel_frames_skipped_equal_neighbours")
+                        tot += int(sc.nlabels[k])
+                        seen.append(np.unique(sc.labels[s0:e0]))
+                        continue
+                    want, npk = ref_sparse(row, col, sig, shape)
+                    lab = np.asarray(sc.labels[s0:e0])
+                    run.count("lmlabel_frames_compared")
+                    why = check_against_reference(lab, int(sc.nlabels[k]), want, npk) or \
+                        ("a pixel is unlabelled" if (lab <= 0).any() else None)
+                    if why:
+                        run.violation("SparseScan.lmlabel:frame-labels", "frame %d of %d (smooth=%s, countall=%s): %s"
+                                      % (k, nfr, smooth, countall, why), dict(key, frame=k))
+                        return
+                    tot += npk
+                    seen.append(np.unique(lab))
+                if sc.total_labels != tot:
+                    run.violation("SparseScan.lmlabel:total", "total_labels %d != sum of per-frame labels %d" % (sc.total_labels, tot), key)
+                if countall and seen and len(np.unique(np.concatenate(seen))) != sum(len(u) for u in seen):
+                    run.violation("SparseScan.lmlabel:labels-collide", "countall=True but two frames share a label: the scan-wide "
+                                  "label array merges pixels of different frames", key)
+    finally:
+        shutil.rmtree(d, ignore_errors=True)
 
 
 def sched_tier(run, seed, nimg, seeds, tsan_imgs):
@@ -272,6 +547,8 @@ def check(run, replay=None):
     mods = (cImageD11, sparseframe)
     if replay is not None:
         cs = replay["case"]
+        if cs.get("tier"):
+            run.tier = cs["tier"]
         if cs.get("source") == "sched":
             env = dict(os.environ)
             env["PYTHONPATH"] = VERIF
@@ -282,22 +559,38 @@ def check(run, replay=None):
                 run.violation(vio["key"], vio["what"], vio["replay"])
             run.evaluations += 1
         elif cs.get("source") == "sparse":
-            sparse_cases(run, replay["seed"], mods, cs["index"] + 1)
+            sparse_cases(run, replay["seed"], mods, cs["index"] + 1, only=cs["index"])
+        elif cs.get("source") == "scan":
+            scan_case(run, replay["seed"], cs["index"], mods)
         else:
-            stress_cases(run, replay["seed"], mods, cs["index"] + 1, 3)
+            stress_cases(run, replay["seed"], mods, cs["index"] + 1, 3, only=cs["index"])
         run.nontrivial.update(["replay", "replay2"])
         return
     if run.tier == "quick":
-        stress_cases(run, run.seed, mods, 24, 6)
-        sparse_cases(run, run.seed, mods, 60)
+        stress_cases(run, run.seed, mods, 24, 5)
+        sparse_cases(run, run.seed, mods, 120)
+        for idx in range(16):
+            scan_case(run, run.seed, idx, mods)
         if not os.environ.get("VERIF_ASAN_RERUN"):
             sched_tier(run, run.seed, 16, 9, 6)
     else:
-        stress_cases(run, run.seed, mods, 400, 25)
-        sparse_cases(run, run.seed, mods, 2000)
+        stress_cases(run, run.seed, mods, 300, 20)     # ~100 k kernel runs, about the cost of the former 400 x 25 x 7 thread counts
+        sparse_cases(run, run.seed, mods, 4000)
+        for idx in range(400):
+            scan_case(run, run.seed, idx, mods)
         if not os.environ.get("VERIF_ASAN_RERUN"):
             sched_tier(run, run.seed, 300, 60, 40)
-    run.extra["thread_counts"] = list(THREADS)
+    run.extra["thread_counts"] = list(THREADS) + ["+2 per image drawn from 1..64"]
     run.require_counter("libgomp_runs", 500)
+    run.require_counter("libgomp_runs_threads_not_dividing_size", 50)
     run.require_counter("sparse_runs", 50)
     run.require_counter("sparse_border_patterns", 10)
+    run.require_counter("sparse_vs_dense", 10)
+    run.require_counter("sparse_patterns_coordinate_ge_32768", 10)
+    run.require_counter("sparse_patterns_straddling_32768", 5)
+    run.require_counter("sparse_smooth_checks", 50)
+    run.require_counter("lmlabel_runs", 40)
+    run.require_counter("lmlabel_frames_compared", 100)
+    run.require_counter("lmlabel_smooth_frames", 40)
+    for vm in ("negative", "centered", "scaled"):
+        run.require_counter("sparse_images_vmap_" + vm, 3)
